@@ -147,6 +147,19 @@ MUTANTS = [
     (O, '::ham_heis.gen_term', "return ikron(two_site_term, dims, [i, i + 1], **ikron_kws)", "return ikron(single_site_b, dims, [i, i + 1], **ikron_kws)", 'expect-fail'),
     (O, '::ham_heis.gen_term', "                for j, s in zip((jx, jy, jz), \"xyz\")\n                if j != 0.0\n            )", "                for j, s in zip((jx, jy, jz), \"xyz\")\n            )", 'benign'),
     (O, '::ham_heis.gen_term', "return ikron(two_site_term, dims, [i, i + 1], **ikron_kws)", "return ikron(two_site_term, dims, [i, i + 1])", 'expect-fail'),
+    # ---- aliases of ham_heis
+    (O, '::ham_ising', "return ham_heis(n, j=(0, 0, jz), b=(bx, 0, 0), **ham_opts)", "return ham_heis(n, j=(jz, 0, 0), b=(bx, 0, 0), **ham_opts)", 'expect-fail'),
+    (O, '::ham_ising', "return ham_heis(n, j=(0, 0, jz), b=(bx, 0, 0), **ham_opts)", "return ham_heis(n, j=(0, 0, jz), b=(0, 0, bx), **ham_opts)", 'expect-fail'),
+    (O, '::ham_ising', "return ham_heis(n, j=(0, 0, jz), b=(bx, 0, 0), **ham_opts)", "return ham_heis(n + 1, j=(0, 0, jz), b=(bx, 0, 0), **ham_opts)", 'expect-fail'),
+    (O, '::ham_ising', "return ham_heis(n, j=(0, 0, jz), b=(bx, 0, 0), **ham_opts)", "return ham_heis(n, j=(0, 0, jz), b=(bx, 0, 0))", 'expect-fail'),
+    (O, '::ham_XY', "return ham_heis(n, j=(jxy, jxy, 0), b=(0, 0, bz), **ham_opts)", "return ham_heis(n, j=(jxy, 0, jxy), b=(0, 0, bz), **ham_opts)", 'expect-fail'),
+    (O, '::ham_XY', "return ham_heis(n, j=(jxy, jxy, 0), b=(0, 0, bz), **ham_opts)", "return ham_heis(n, j=(jxy, jxy, 0), b=(bz, 0, 0), **ham_opts)", 'expect-fail'),
+    (O, '::ham_XY', "return ham_heis(n, j=(jxy, jxy, 0), b=(0, 0, bz), **ham_opts)", "return ham_heis(n - 1, j=(jxy, jxy, 0), b=(0, 0, bz), **ham_opts)", 'expect-fail'),
+    (O, '::ham_XY', "return ham_heis(n, j=(jxy, jxy, 0), b=(0, 0, bz), **ham_opts)", "return ham_heis(n, j=(jxy, jxy, 0), b=(0, 0, bz))", 'expect-fail'),
+    (O, '::ham_XXZ', "return ham_heis(n, j=(jxy, jxy, delta), b=0, **ham_opts)", "return ham_heis(n, j=(delta, jxy, jxy), b=0, **ham_opts)", 'expect-fail'),
+    (O, '::ham_XXZ', "return ham_heis(n, j=(jxy, jxy, delta), b=0, **ham_opts)", "return ham_heis(n, j=(jxy, jxy, delta), b=1, **ham_opts)", 'expect-fail'),
+    (O, '::ham_XXZ', "return ham_heis(n, j=(jxy, jxy, delta), b=0, **ham_opts)", "return ham_heis(n + 1, j=(jxy, jxy, delta), b=0, **ham_opts)", 'expect-fail'),
+    (O, '::ham_XXZ', "return ham_heis(n, j=(jxy, jxy, delta), b=0, **ham_opts)", "return ham_heis(n, j=(jxy, jxy, delta), b=0)", 'expect-fail'),
 ]
 
 _BASELINE = {}
